@@ -918,7 +918,35 @@ func c18GenSkew(r *rand.Rand, big bool) *c18Case {
 var c18IDs = []string{"a", "b", "10.0.0.7", "", "id-with-a-long-name-0123456789", "A", "id-with-a-long-name-0123456780", "ab"}
 var c18IPs = []string{"10.0.0.1", "10.0.0.2", "192.168.1.9", "203.0.113.5", "203.0.113.57", "10.0.0.12"}
 
+// long identifiers (65-200 bytes) that share long prefixes: they differ only after byte 64,
+// only in the last byte, or one is a proper prefix of the other
+func c18LongIDs(r *rand.Rand) []string {
+	base := strings.Repeat("tenant-0123456789abcdef/", 3)[:64]
+	switch r.Intn(5) {
+	case 0:
+		return []string{base + "A", base + "B"}
+	case 1:
+		long := base + strings.Repeat("x", 1+r.Intn(135))
+		return []string{long + "0", long + "1"}
+	case 2:
+		return []string{base, base + "-suffix"}
+	case 3:
+		p := strings.Repeat("k", 127)
+		return []string{p + "a", p + "b", p}
+	default:
+		p := strings.Repeat("Zz", 32+r.Intn(60))
+		return []string{p + "/1", p + "/2"}
+	}
+}
+
 func c18PickIDs(r *rand.Rand, ipOnly bool) []string {
+	if !ipOnly && r.Intn(5) == 0 {
+		ids := c18LongIDs(r)
+		if r.Intn(2) == 0 {
+			ids = append(ids, c18IDs[r.Intn(len(c18IDs))])
+		}
+		return ids
+	}
 	n := 1 + r.Intn(4)
 	src := c18IDs
 	if ipOnly {
@@ -1373,7 +1401,7 @@ func c18Shrink(ci any) []any {
 func init() {
 	register(&Prop{
 		ID:             "C18",
-		Rule:           "3/5 exact stream (rate k/2^j, instants multiples of 2^-9 s: float64 arithmetic of x/time/rate is exact, decisions compared with the Lean model), 2/5 arbitrary stream (rate p/q, ns instants, incl. the F11 arrival pattern floor(i/rate): oracles only), plus high-rate exact cases where the 1 ns truncation slack shows, plus a skew stream (concurrent Store.Allow goroutines on a clock monotone in start order, some held by channels between their clock reading and AllowN while 1-3 later calls complete: out-of-order readings at the limiter, finding F19; compared with the model in AllowN order and checked against the allowance of C18_skew_bucket), plus a frozen-clock stress stream (4-15 fresh identifiers x 8-31 goroutines released together: at most / exactly burst admissions per identifier on any schedule; oracle only); a third of the middleware cases use custom Deny/ErrorHandlers (writing 429/403 and returning nil, or returning their own HTTPError); 1-4 identifiers, bursts at one instant, arrivals at/next to the refill interval, idle gaps at ExpiresIn-1,+0,+1 unit and beyond (cleanup), returns after being forgotten; ExpiresIn tight (=burst/rate), wider, default, or (exact stream only, tie only) violating ExpiresIn*rate>=burst; requests direct to Store.Allow or through RateLimiterWithConfig (extractor error, skipper, default RealIP extractor); non-trivial = some identifier is admitted again after a refusal, or returns after a gap longer than ExpiresIn; distinct = distinct model op lines / cases",
+		Rule:           "3/5 exact stream (rate k/2^j, instants multiples of 2^-9 s: float64 arithmetic of x/time/rate is exact, decisions compared with the Lean model), 2/5 arbitrary stream (rate p/q, ns instants, incl. the F11 arrival pattern floor(i/rate): oracles only), plus high-rate exact cases where the 1 ns truncation slack shows, plus a skew stream (concurrent Store.Allow goroutines on a clock monotone in start order, some held by channels between their clock reading and AllowN while 1-3 later calls complete: out-of-order readings at the limiter, finding F19; compared with the model in AllowN order and checked against the allowance of C18_skew_bucket), plus a frozen-clock stress stream (4-15 fresh identifiers x 8-31 goroutines released together: at most / exactly burst admissions per identifier on any schedule; oracle only); a third of the middleware cases use custom Deny/ErrorHandlers (writing 429/403 and returning nil, or returning their own HTTPError); 1-4 identifiers (a fifth of the cases: 65-200 byte identifiers sharing their first 64+ bytes, differing only in the last byte, or one a prefix of the other), bursts at one instant, arrivals at/next to the refill interval, idle gaps at ExpiresIn-1,+0,+1 unit and beyond (cleanup), returns after being forgotten; ExpiresIn tight (=burst/rate), wider, default, or (exact stream only, tie only) violating ExpiresIn*rate>=burst; requests direct to Store.Allow or through RateLimiterWithConfig (extractor error, skipper, default RealIP extractor); non-trivial = some identifier is admitted again after a refusal, or returns after a gap longer than ExpiresIn; distinct = distinct model op lines / cases",
 		New:            func() any { return &c18Case{} },
 		Gen:            c18Gen,
 		Run:            c18Run,
